@@ -73,7 +73,14 @@ def same_name_value(fn: FunctionInfo, a: ast.expr, na: Optional[Node], b: ast.ex
     definitions, ``self``, or equal attribute chains over such)?"""
     if isinstance(a, ast.Name) and isinstance(b, ast.Name):
         if a.id != b.id:
-            return False
+            # different local names may still be copies of one value (aliases introduced by refactoring / inlining)
+            from .defuse import value_sources
+            rd = reaching_defs(fn)
+            sa = value_sources(fn, a, na or rd.node_of(a))
+            sb = value_sources(fn, b, nb or rd.node_of(b))
+            ka = {(k, id(p) if isinstance(p, ast.AST) else repr(p)) for k, p in sa}
+            kb = {(k, id(p) if isinstance(p, ast.AST) else repr(p)) for k, p in sb}
+            return bool(ka) and ka == kb and not any(k in ("unknown",) for k, _ in ka)
         if a.id == fn.self_name:
             return True
         rd = reaching_defs(fn)
@@ -85,6 +92,8 @@ def same_name_value(fn: FunctionInfo, a: ast.expr, na: Optional[Node], b: ast.ex
         db = set(id(d) for d in rd.reaching(nb, b.id))
         # an assign node's own definition is not in its in-set; ignore that asymmetry
         return bool(da) and da == db
+    if isinstance(a, ast.Name) and isinstance(b, ast.Name):
+        pass
     if isinstance(a, ast.Attribute) and isinstance(b, ast.Attribute):
         return a.attr == b.attr and same_name_value(fn, a.value, na, b.value, nb)
     if isinstance(a, ast.Constant) and isinstance(b, ast.Constant):
@@ -156,3 +165,70 @@ def mentions_params(fn: FunctionInfo, expr: ast.expr, node: Optional[Node], para
                     if mentions_params(fn, nm, payload[-1] if isinstance(payload[-1], Node) else node, params, _depth + 1):
                         return True
     return False
+
+
+def deref(fn: FunctionInfo, expr: ast.expr, node: Optional[Node] = None, depth=0) -> ast.expr:
+    """Follow a local name that has exactly one (expression) definition to that expression."""
+    from .defuse import value_sources
+    if depth > 4 or not isinstance(expr, ast.Name):
+        return expr
+    srcs = value_sources(fn, expr, node)
+    if len(srcs) == 1 and srcs[0][0] == "expr" and isinstance(srcs[0][1], ast.AST) and srcs[0][1] is not expr:
+        return deref(fn, srcs[0][1], None, depth + 1)
+    return expr
+
+
+def expand_aliases(fn: FunctionInfo, expr: ast.expr, node: Optional[Node] = None) -> ast.expr:
+    """A copy of expr in which local names that are plain copies of one attribute chain / name / parameter-free
+    expression are replaced by what they stand for (so `env_name` reads as `field.env`)."""
+    import copy
+    from .defuse import value_sources
+    rd = reaching_defs(fn)
+
+    def pure(e):
+        if isinstance(e, ast.Attribute):
+            return pure(e.value)
+        if isinstance(e, ast.Name):
+            return True
+        if isinstance(e, ast.Constant):
+            return True
+        if isinstance(e, ast.Compare):
+            return pure(e.left) and all(pure(c) for c in e.comparators)
+        if isinstance(e, ast.UnaryOp) and isinstance(e.op, ast.Not):
+            return pure(e.operand)
+        if isinstance(e, ast.BoolOp):
+            return all(pure(v) for v in e.values)
+        if isinstance(e, ast.Call) and isinstance(e.func, ast.Name) and e.func.id in ("isinstance", "len", "bool") and not e.keywords:
+            return all(pure(x) or isinstance(x, ast.Tuple) for x in e.args)
+        return False
+    # work on a copy but resolve names on the original nodes (they carry positions in the CFG)
+    mapping = {}
+    for n in ast.walk(expr):
+        if isinstance(n, ast.Name) and isinstance(n.ctx, ast.Load):
+            at = rd.node_of(n) or node
+            srcs = value_sources(fn, n, at)
+            if len(srcs) == 1 and srcs[0][0] == "expr" and not isinstance(srcs[0][1], (ast.Name, ast.Constant)) \
+                    and pure(srcs[0][1]) and srcs[0][1] is not n:
+                mapping[id(n)] = srcs[0][1]
+    if not mapping:
+        return expr
+
+    def rebuild(e):
+        if id(e) in mapping:
+            return copy.deepcopy(mapping[id(e)])
+        new = copy.copy(e)
+        for field, value in ast.iter_fields(e):
+            if isinstance(value, list):
+                setattr(new, field, [rebuild(v) if isinstance(v, ast.AST) else v for v in value])
+            elif isinstance(value, ast.AST):
+                setattr(new, field, rebuild(value))
+        return new
+    return rebuild(expr)
+
+
+def is_param(fn: FunctionInfo, expr: ast.expr, node: Optional[Node], pname: str) -> bool:
+    from .defuse import value_sources
+    if not isinstance(expr, ast.Name):
+        return False
+    srcs = value_sources(fn, expr, node)
+    return bool(srcs) and all(k == "param" and p == pname for k, p in srcs)
